@@ -253,11 +253,18 @@ def run(tier):
     ck.assumptions = ["TLC/SANY, CommunityModules Json/IOUtils", "drv/stream.c reproduces the call sequences of mpt_stream_push/flush/poll/dispatch",
                       "frames of COBS/R and ZPE framings are judged by delimiter counting here (byte-level: C01)",
                       "bounded model: 2 messages, block code 5"]
+    # extension X02: unframed queue paths, peek, file streams (checks/x02_raw.py, docs/X02_raw.md)
+    import x02_raw
+    if x02_raw.enabled():
+        x02_raw.run_part(ck, tier)
     return ck.finish()
 
 
 def replay(path):
     d = json.load(open(path))
+    if d["detail"].get("x02"):
+        import x02_raw
+        return x02_raw.replay(d["detail"], path)
     beh = d["detail"].get("behaviour")
     if not beh:
         print(json.dumps(d["detail"], indent=1)[:4000])
